@@ -16,7 +16,13 @@
 //     checked at the very next layer and at the handler (TM/D1M/D2M, bRewriteErr),
 //   - OVERLAP: two RPCs whose interceptor activity overlaps on one decorated carrier, one
 //     interceptor calling onward late, from another goroutine, before or after it has
-//     returned itself (overlap.go).
+//     returned itself (overlap.go),
+//   - VIEW PROGRAMS: registry views and decoration results as long-lived objects: sequences of
+//     "derive a view from a root or from an earlier view" / "register a description, or the
+//     decorated result of an earlier registration, through any registry that exists" over two
+//     roots, with interceptor instances that are distinct values sharing their code (closures of
+//     one factory, method values of several receivers), distinct code, or the very same value
+//     (views.go).
 package main
 
 import (
@@ -118,6 +124,8 @@ type caseT struct {
 	D2M int `json:"d2m,omitempty"`
 	// Ov, when set, makes this an OVERLAP case (overlap.go)
 	Ov *ovT `json:"ov,omitempty"`
+	// Vw, when set, makes this a VIEW PROGRAM case (views.go); only Carrier and Form are used besides
+	Vw *vwT `json:"vw,omitempty"`
 }
 
 var seqNames = []string{"nil", "A", "B"}
@@ -138,6 +146,9 @@ func (c caseT) chainStr() string {
 }
 
 func (c caseT) String() string {
+	if c.Vw != nil {
+		return fmt.Sprintf("%s/%s %s", c.Carrier, c.Form, c.Vw.String())
+	}
 	s := fmt.Sprintf("%s/%s u=%d flags=%v depth=%d %s %s other=%v/%v/%v herr=%v", c.Carrier, c.Form, c.U, c.Flags, c.Depth, c.Kind, c.chainStr(), c.OT, c.OD1, c.OD2, c.HErr)
 	if c.Ctx != 0 {
 		s += " ctx=" + []string{"live", "cancelled-at-dispatch", "cancelled-by-T-before-onward"}[c.Ctx]
@@ -350,9 +361,15 @@ func streamName(i int) string { return fmt.Sprintf("S%d", i) }
 // makeDesc builds a descriptor the way generated code does: the unary handler
 // decodes, then runs the interceptor it is given around the application method.
 func makeDesc(c caseT, l *clog) *grpc.ServiceDesc {
+	return makeDescNamed(svcName, "", c, l)
+}
+
+// makeDescNamed: the same for a service called svc whose method names carry the prefix pre
+// (view programs register several services; c gives the shape and the handler's outcome).
+func makeDescNamed(svcName, pre string, c caseT, l *clog) *grpc.ServiceDesc {
 	d := &grpc.ServiceDesc{ServiceName: svcName, HandlerType: (*svcIface)(nil), Metadata: "t/svc.proto"}
 	for i := 0; i < c.U; i++ {
-		name := unaryName(i)
+		name := pre + unaryName(i)
 		app := func(srv interface{}, ctx context.Context, req interface{}) (interface{}, error) {
 			e := l.add(&entry{who: "H", method: name, srv: srv, req: req, ctx: ctx})
 			if sv, ok := req.(*wrapperspb.StringValue); ok {
@@ -382,7 +399,7 @@ func makeDesc(c caseT, l *clog) *grpc.ServiceDesc {
 		}})
 	}
 	for i, fl := range c.Flags {
-		name := streamName(i)
+		name := pre + streamName(i)
 		d.Streams = append(d.Streams, grpc.StreamDesc{StreamName: name, ClientStreams: fl&1 != 0, ServerStreams: fl&2 != 0, Handler: func(srv interface{}, stream grpc.ServerStream) error {
 			e := l.add(&entry{who: "H", method: name, srv: srv, stream: stream, ctx: stream.Context()})
 			if l.ov != nil {
@@ -993,6 +1010,9 @@ func runCase(c caseT, verbose bool) (probs []problem, observed string) {
 	if c.Ov != nil {
 		return runOverlap(c, verbose)
 	}
+	if c.Vw != nil {
+		return runViews(c, verbose)
+	}
 	atomic.AddInt64(&progress, 1)
 	current.Store(c.String())
 	add := func(clause, sub, what string) { probs = append(probs, problem{clause, sub, what}) }
@@ -1252,6 +1272,16 @@ func enumerate(tier string, fn func(caseT)) {
 
 // fingerprint keeps, per clause, the parameters the clause can depend on.
 func fingerprint(c caseT, pr problem) string {
+	if c.Vw != nil {
+		// view programs: the program, how the instances were made, and the call concerned (in pr.sub); whether there are
+		// transport-level interceptors, when the calls are made and which view fails only where the clause can depend on it
+		v := c.Vw
+		fp := fmt.Sprintf("C16|%s|%s|views[%s]|inst=%s|tr=%v|calls=%s", c.Carrier, c.Form, v.prog(), v.Inst, v.Tr, vwCallsNames[v.Calls])
+		if v.Fail >= 0 {
+			fp += "|failing=" + vwRegName(vwRoots+v.Fail)
+		}
+		return fp + "|" + pr.sub + "|" + pr.clause
+	}
 	if c.Ov != nil {
 		// overlap cases: the clause, the RPC and its position among the methods (in pr.sub), who calls onward late and how, the chain
 		switch pr.clause {
@@ -1527,7 +1557,7 @@ func main() {
 
 	evals, calls := 0, 0
 	distinct := map[string]bool{}
-	var samples, ptSamples, ovSamples []interface{}
+	var samples, ptSamples, ovSamples, vwSamples []interface{}
 	suppressedFPs := map[string]bool{}
 	const maxReported = 100
 	sharedCases, ctxCases, cfCases, ptCases, ovCases, ovRuns := 0, 0, 0, 0, 0, 0
@@ -1582,6 +1612,27 @@ func main() {
 	enumerateClientFlags(visit)
 	enumeratePassthrough(rep.Tier, visit)
 
+	// the view programs (views.go)
+	calOK, calWhat := instanceCalibration()
+	if !calOK {
+		inconclusive("the ways of making interceptor instances do not give what the view programs need in this build: %s", calWhat)
+	}
+	vwCases := 0
+	vwPrograms := enumerateViews(rep.Tier, func(c caseT) {
+		evals++
+		vwCases++
+		before, beforeI := atomic.LoadInt64(&vwCallCount), atomic.LoadInt64(&vwIntercepted)
+		probs, obs := runCase(c, false)
+		calls += int(atomic.LoadInt64(&vwCallCount) - before)
+		if atomic.LoadInt64(&vwIntercepted) > beforeI {
+			distinct[c.String()] = true
+		}
+		if len(vwSamples) < 4 && len(c.Vw.Views) == 2 && len(c.Vw.Ops) == 4 && c.Vw.Ops[3].Derive < 0 && c.Vw.Ops[3].Via != c.Vw.Ops[2].Via && vwCases%30011 == 0 {
+			vwSamples = append(vwSamples, map[string]interface{}{"case": c, "program": c.Vw.prog(), "observed": obs})
+		}
+		report(c, probs)
+	})
+
 	// the overlap phase: one P and no garbage collection while RPCs are in flight, every case run twice
 	ph := beginOverlapPhase()
 	const calRounds = 1000
@@ -1631,14 +1682,18 @@ func main() {
 		"client_flag_cases":               cfCases,
 		"passthrough_cases":               ptCases,
 		"overlap_cases":                   ovCases,
+		"view_programs":                   vwPrograms,
+		"view_program_cases":              vwCases,
+		"view_program_calls":              atomic.LoadInt64(&vwCallCount),
+		"instance_calibration":            calWhat,
 		"overlap_runs":                    ovRuns,
 		"overlap_cases_rpc1_held_at_gate": ovHeld,
 		"overlap_repeat_identical":        ovRepeatDiffer == 0,
 		"pool_reuse_calibration":          fmt.Sprintf("%d/%d", cal, calRounds),
 		"rpc_calls":                       calls,
 		"distinct_nontrivial":             len(distinct),
-		"rule":                            "every configuration of: descriptor shape (0-2 unary x 0-2 streams with every flag pair) x carrier (direct call of the decorated descriptor / inprocgrpc.Channel / httpgrpc.Server via HandlerRT) x form (InterceptServer / WithInterceptor) x depth x kind called x behaviour {nil,pass,short-circuit,fail,rewrite} of the transport-level, outer and inner interceptor of that kind x nil/set of each interceptor of the other kind x handler ok/error; every method of the kind is called. Behaviours of other-kind interceptors are not varied because the oracle demands they are never invoked. In addition the SHARING cases: one decorated description (InterceptServer) or decorated HandlerMap (WithInterceptor), outer decoration behaviour {pass,short,fail,rewrite} x inner {none; quick: pass; thorough: all four} on 4 (quick) / 21 (thorough) shapes, is contributed through HandlerMap.ForEach/RegisterService to 2 or 3 in-process channels / HTTP servers, or its handler is called directly 2 or 3 times, with every sequence over {no transport interceptor, A, B} of length 2 and 3; every method of the kind is called on every carrier in turn, same oracle per call. CONTEXT cases: the RPC's context is already cancelled at dispatch (direct carrier) or is cancelled by the transport-level interceptor just before it calls onward (direct carrier and in-process channel, waiting for the server side to finish), all behaviours of T/outer/inner, same oracle on the event log and on identities (on the in-process channel the client-visible result is not judged in these cases). CLIENT-FLAG cases: on the in-process channel and the HTTP server the client opens the stream with a StreamDesc whose flags differ from the registered ones; interceptors must be told the registered flags. PASS-THROUGH cases (swept around the base grammar on 3 (quick) / 21 (thorough) descriptor shapes, other-kind interceptors absent): transport-level {absent or set} x outer {set} x inner {absent or set} interceptor, each set one taking every behaviour of {short-circuit, fail} + {pass, replace the response (stream: the error), replace the error (unary: (nil, Aborted) whatever came back; stream: swallow it)} x what it hands onward (unary: the request received / a modified clone of it x the context received / a derived context carrying a value; stream: the ServerStream received / a wrapper with a derived context that suffixes every message in both directions), x carrier x form x handler ok/error, minus the combinations the base grammar has; the oracle demands that each layer (next interceptor, then handler) is given exactly the request / stream object the previous layer handed onward, sees the context values of every layer before it, that each layer gets back exactly what the next one returned, that the handler reads the value with the suffixes of all replacing layers in order, and that the caller / client sees the model's result. OVERLAP cases (2 (quick) / 5 (thorough) descriptor shapes): two RPCs on ONE decorated carrier; one interceptor X on the path (transport-level, outer or inner in turn; layers before X pass or rewrite or are absent, layers after X take every behaviour) makes its single onward call late: inline after a gate opens / from another goroutine that waits for the gate while X waits for it / from another goroutine after X has returned DeadlineExceeded itself; RPC 1 is held at X's gate (in the last mode: has completed for its caller), then RPC 2 to every method of the kind (the same one included) runs ungated to completion, or is held the same way and the gates are opened 2-then-1 or 1-then-2; x carrier x form x handler ok/error. All waiting is on channels. The oracle is the statement per RPC (events are attributed to an RPC by the request value / stream metadata the event was given): each interceptor once, told that RPC's FullMethod and flags, handler iff every interceptor called onward, the handler of that RPC's method, results passed through; an onward-calling interceptor that has not returned yet reads the info object it was given a second time when its onward call has come back (as logging interceptors do), and it must still say the same. The overlap phase runs with GOMAXPROCS(1) and garbage collection only between cases, so that a sync.Pool hands back what was put last (calibrated: pool_reuse_calibration) and reuse of recycled per-call state by the other RPC happens every time; every overlap case is run twice and both runs must observe the same (overlap_repeat_identical; a difference is printed, and aborts the run as inconclusive unless one of the two runs violated the statement, which is then reported). A configuration is non-trivial when at least one method is called and at least one interceptor is on its path (overlap: when RPC 1 really was held at X's gate, measured); distinct by all parameters.",
-		"samples":                         append(append(samples, ptSamples...), ovSamples...),
+		"rule":                            "every configuration of: descriptor shape (0-2 unary x 0-2 streams with every flag pair) x carrier (direct call of the decorated descriptor / inprocgrpc.Channel / httpgrpc.Server via HandlerRT) x form (InterceptServer / WithInterceptor) x depth x kind called x behaviour {nil,pass,short-circuit,fail,rewrite} of the transport-level, outer and inner interceptor of that kind x nil/set of each interceptor of the other kind x handler ok/error; every method of the kind is called. Behaviours of other-kind interceptors are not varied because the oracle demands they are never invoked. In addition the SHARING cases: one decorated description (InterceptServer) or decorated HandlerMap (WithInterceptor), outer decoration behaviour {pass,short,fail,rewrite} x inner {none; quick: pass; thorough: all four} on 4 (quick) / 21 (thorough) shapes, is contributed through HandlerMap.ForEach/RegisterService to 2 or 3 in-process channels / HTTP servers, or its handler is called directly 2 or 3 times, with every sequence over {no transport interceptor, A, B} of length 2 and 3; every method of the kind is called on every carrier in turn, same oracle per call. CONTEXT cases: the RPC's context is already cancelled at dispatch (direct carrier) or is cancelled by the transport-level interceptor just before it calls onward (direct carrier and in-process channel, waiting for the server side to finish), all behaviours of T/outer/inner, same oracle on the event log and on identities (on the in-process channel the client-visible result is not judged in these cases). CLIENT-FLAG cases: on the in-process channel and the HTTP server the client opens the stream with a StreamDesc whose flags differ from the registered ones; interceptors must be told the registered flags. PASS-THROUGH cases (swept around the base grammar on 3 (quick) / 21 (thorough) descriptor shapes, other-kind interceptors absent): transport-level {absent or set} x outer {set} x inner {absent or set} interceptor, each set one taking every behaviour of {short-circuit, fail} + {pass, replace the response (stream: the error), replace the error (unary: (nil, Aborted) whatever came back; stream: swallow it)} x what it hands onward (unary: the request received / a modified clone of it x the context received / a derived context carrying a value; stream: the ServerStream received / a wrapper with a derived context that suffixes every message in both directions), x carrier x form x handler ok/error, minus the combinations the base grammar has; the oracle demands that each layer (next interceptor, then handler) is given exactly the request / stream object the previous layer handed onward, sees the context values of every layer before it, that each layer gets back exactly what the next one returned, that the handler reads the value with the suffixes of all replacing layers in order, and that the caller / client sees the model's result. OVERLAP cases (2 (quick) / 5 (thorough) descriptor shapes): two RPCs on ONE decorated carrier; one interceptor X on the path (transport-level, outer or inner in turn; layers before X pass or rewrite or are absent, layers after X take every behaviour) makes its single onward call late: inline after a gate opens / from another goroutine that waits for the gate while X waits for it / from another goroutine after X has returned DeadlineExceeded itself; RPC 1 is held at X's gate (in the last mode: has completed for its caller), then RPC 2 to every method of the kind (the same one included) runs ungated to completion, or is held the same way and the gates are opened 2-then-1 or 1-then-2; x carrier x form x handler ok/error. All waiting is on channels. The oracle is the statement per RPC (events are attributed to an RPC by the request value / stream metadata the event was given): each interceptor once, told that RPC's FullMethod and flags, handler iff every interceptor called onward, the handler of that RPC's method, results passed through; an onward-calling interceptor that has not returned yet reads the info object it was given a second time when its onward call has come back (as logging interceptors do), and it must still say the same. The overlap phase runs with GOMAXPROCS(1) and garbage collection only between cases, so that a sync.Pool hands back what was put last (calibrated: pool_reuse_calibration) and reuse of recycled per-call state by the other RPC happens every time; every overlap case is run twice and both runs must observe the same (overlap_repeat_identical; a difference is printed, and aborts the run as inconclusive unless one of the two runs violated the statement, which is then reported). VIEW PROGRAMS (views.go; view_programs / view_program_cases / view_program_calls): two root registries R0, R1 of the carrier type (HandlerMap whose decorated handlers are called directly / inprocgrpc.Channel / httpgrpc.Server), each behind a registrar that records what arrives, each with transport-level interceptor instances of its own or none; a program is any sequence of V derivations 'view = WithInterceptor(parent, u?, s?)' (parent: any registry that exists at that point, root or earlier view; (u?,s?) in {(u,-),(-,s),(u,s)}; every view has interceptor instances of its own) and R registrations 'description X/Y/Z (one unary and one stream method each; X bidi, Y server-, Z client-streaming), or the decorated description that an earlier registration put onto the other root, with a server object of its own, through any registry that exists at that point', in every interleaving (views that are derived and never registered through included; one description pointer may be registered on both roots; programs equal up to renaming of views / descriptions / roots are enumerated once). Sizes (V,R): quick (1,1) (1,2) (2,1) crossed, (2,2) swept, (3,1) at the base point; thorough (1,1) (1,2) (2,1) (2,2) crossed, (1,3) (3,1) swept, (2,3) at the base point with every way of making instances, (3,2) at the base point. Crossed = program x carrier x form (WithInterceptor objects / InterceptServer applied by hand along the path of views) x way of making the interceptor instances {closures returned by one factory function (distinct values, one code pointer) / method values of one receiver object per view (distinct values, one code pointer) / a function literal of its own per instance (distinct code) / the very same pair of function values for all views} x transport-level interceptors {none, on both roots} x when the calls are made {after the program in registration order / in reverse order / after every single operation, everything registered so far} x which view's interceptors fail instead of calling onward {none, each view in turn}; swept = the base point (closures, transport-level interceptors, calls at the end, nothing fails) and every point differing from it in one of these four dimensions. Every call is one unary and one stream RPC per registered service; oracle = the per-instance event log (transport-level interceptor of that root, then the interceptor of the kind of every view on the path from the root to the registry registered through, root-most first, then those the re-registered decoration result already had, each once, then the handler with that registration's server object, and nothing else) plus everything demanded of a single call above, plus the input descriptions unmodified. The four ways of making instances are calibrated at start-up (instance_calibration: code pointers equal / different as intended, every instance logs as itself), otherwise the run is inconclusive. A configuration is non-trivial when at least one method is called and at least one interceptor is on its path (overlap: when RPC 1 really was held at X's gate, measured; view programs: when at least one call had an interceptor on its path, measured); distinct by all parameters.",
+		"samples":                         append(append(append(samples, ptSamples...), ovSamples...), vwSamples...),
 		"exhaustive":                      true,
 		"suppressed_reports":              suppressed,
 	}, []string{
@@ -1646,6 +1701,7 @@ func main() {
 		"a panic in a server goroutine of the in-process channel would abort the checker (exit 2) instead of being reported",
 		"quick = nesting depth 1 on all 63 descriptor shapes + depth 2 on 21 shapes (0-2 unary x {no stream, one stream of each flag pair, [client-only, server-only], [bidi, neither]}); thorough = depths 1 and 2 on all 63 shapes",
 		"the pass-through and overlap dimensions are swept around base cases on a few descriptor shapes with the other-kind interceptors absent, not crossed with the sharing / context / client-flag dimensions nor with each other",
+		"view programs: descriptor shapes, behaviours other than pass / fail, handler errors, contexts and client flags are not varied (the other parts of the grammar do that); views with no interceptor at all are left out because WithInterceptor(reg, nil, nil) is checked to return reg itself; the larger program sizes are swept around / run at one base point instead of crossed (see rule); when the very same function value is given to two nested views the oracle expects it to run once per view, which is what nesting means and what the unchanged library does",
 		"overlap cases: determinism of what a late onward call finds rests on GOMAXPROCS(1) + no collection while RPCs are in flight (sync.Pool then returns the object put last; calibrated at the start of the phase) and is verified by running each case twice with identical observations; in the go-late mode on a transport the messages a stream handler reads or sends after its RPC was completed are not judged, only the event log, what interceptors were told and the handler's identity",
 	}))
 }
